@@ -28,7 +28,7 @@ HIST_MODELS = {
 }
 NO_OPTIMUM = ("unbounded", "infeasible", "unbounded_inaccurate", "infeasible_inaccurate")
 OPS = ["solve", "solve_novalue", "solve_error", "add_contradiction", "remove_contradiction", "drop_init", "restore_init",
-       "new_objects", "solve_mosek", "solve_trace"]
+       "new_objects", "solve_mosek", "solve_trace", "solve_aborted"]
 
 
 class FaultAnswer(Exception):
@@ -213,6 +213,8 @@ def run_history(mname, hist):
     step_probs = []
 
     def read_all():
+        if has_solution is None:
+            return          # right after a solve call that raised half-way: unspecified until the next solve
         sent_now = ({id(c) for c in pep._list_of_constraints_sent_to_wrapper} | {id(m) for m in pep._list_of_psd_sent_to_wrapper}) if has_solution else set()
         pp, _ = judge_objects(held + extra, has_solution, sent_now, "history", new_ids)
         step_probs.extend(pp)
@@ -245,6 +247,16 @@ def run_history(mname, hist):
             new_ids = set() if has_solution else new_ids
             if has_solution:
                 extra = []     # objects created from new leaves before this solve are now part of the solved model
+        elif op == "solve_aborted":
+            # a solve call that raises AFTER the solver has answered (the invalid heuristic name is only looked at then):
+            # what the accessors say right after it is left unspecified, the NEXT solve must start from a clean slate
+            try:
+                out_ = pep.solve(verbose=0, solver="CLARABEL", dimension_reduction_heuristic="not_a_heuristic")
+                if out_ is not None:
+                    probs.append(("history:invalid-option-accepted", "an invalid heuristic name was accepted and solve returned %r" % out_))
+                has_solution = False      # no finite optimum: the name was never looked at, nothing was fabricated
+            except Exception:
+                has_solution = None
         elif op in ("solve_novalue", "solve_error"):
             with faulty_cvxpy("error" if op == "solve_error" else "novalue"):
                 r = solving.solve(pep)
@@ -273,6 +285,8 @@ def run_history(mname, hist):
                    ("new:mixed-expr", e + ctx.exprs["dn"]), ("new:constraint", (z ** 2 <= 1))]
             extra += new
             new_ids |= {id(o) for _, o in new}
+    if has_solution is None:
+        return (probs + step_probs) or None, {}, "unspecified-after-aborted-solve"
     sent = {id(c) for c in pep._list_of_constraints_sent_to_wrapper} | {id(m) for m in pep._list_of_psd_sent_to_wrapper}
     objs = all_objects(ctx, extra)
     p2, outc = judge_objects(objs, has_solution, sent if has_solution else set(), "history", new_ids)
@@ -326,6 +340,9 @@ INVALID = [
     ("opt", "PD_gapIV", {"gamma": 0}), ("opt", None, {"gamma": 0}), ("opt", "PD_gap", {"gamma": 2}),
     ("d", 0), ("d", -1), ("d", 1.5), ("d", "2"), ("d", None),
     ("sense", "leq"), ("sense", None), ("sense", "Equality"),
+    # the public attribute set to an invalid value AFTER the constraint was created, the model then solved on either path
+    ("sense_after", "Equality"), ("sense_after", "equal"), ("sense_after", ""), ("sense_after", None),
+    ("sense_after@mosek", "Equality"), ("sense_after@mosek", None),
     ("solver", "NOT_A_SOLVER"), ("solver", "CLARABLE"), ("solver", ""), ("solver", 3), ("solver", "scs "),
 ]
 
@@ -352,9 +369,15 @@ def run_invalid(case, spec=None, solver="CLARABEL"):
             out = ctx.pep.declare_block_partition(d=val)
         elif name == "sense":
             out = Constraint(ctx.exprs["dn"], val)
+        elif name.startswith("sense_after"):
+            ctx.constraints["init"].equality_or_inequality = val
+            r_ = solving.solve(ctx.pep, backend="mosek" if name.endswith("@mosek") else "cvxpy")
+            if r_["exc"] is not None:
+                raise r_["exc"]
+            out = r_["value"]
     except Exception as e:
         return [], {"invalid:%s:raised:%s" % (name, type(e).__name__): 1}
-    if name in ("return_primal_or_dual", "dimension_reduction_heuristic", "solver") and out is None:
+    if (name in ("return_primal_or_dual", "dimension_reduction_heuristic", "solver") or name.startswith("sense_after")) and out is None:
         return [], {"invalid:%s:no-value" % name: 1}     # the solver found nothing: nothing was fabricated either
     return [("invalid-option-accepted:%s:%r" % (name, val), "%s=%r%s was accepted and returned %r"
              % (name, val, " (with %s)" % aux if aux else "", out if isinstance(out, float) else type(out).__name__))], {}
